@@ -1,17 +1,62 @@
 PROP = {
-    "lean_modules": ["GunYu.Model.Checkpoint"],
-    "audit_namespaces": [],
-    "required_theorems": [],
-    "expected_facts": {},
-    "harness": [{"name": "C17", "pkg": "./pkg/redis/checkpoint/", "test": "TestVerifC17"}],
+    "lean_modules": ["GunYu.Props.C17"],
+    "audit_namespaces": ["GunYu.Props.C17"],
+    "required_theorems": [
+        "GunYu.Props.C17.update_prefix_safe",
+        "GunYu.Props.C17.update_position_before",
+        "GunYu.Props.C17.migrate_prefix_safe",
+        "GunYu.Props.C17.gc_prefix_safe",
+        "GunYu.Props.C17.gc_spares_newest_of_live_id",
+        "GunYu.Props.C17.gc_passes_exceptNewest",
+        "GunYu.Props.C17.gc_newest_is_largest",
+        "GunYu.Props.C17.consts_match_source",
+    ],
+    # cmd/syncer.go is not run in-process: the closure `gcStaleCp` (log statements removed) and the
+    # construction of the live-id set are compared with what the harness transliterates / the model assumes
+    "expected_facts": {
+        "c17_gcStaleCp": '{ data, err := checkpoint.GetAllCheckpointHash(cli) if err != nil { return } if len(data)%2 == 1 { return } for i := 0; i < len(data)-1; i += 2 { runId := data[i] cpn := data[i+1] _, exist := runIdMap[runId] total, deleted, err := checkpoint.DelStaleCheckpoint(cli, cpn, runId, config.GetSyncerConfig().Channel.StaleCheckpointDuration, exist) if err != nil { } if !exist && total == deleted { err = checkpoint.DelCheckpointHash(cli, runId) if err == nil { } else { } } } }',
+        "c17_gc_live_ids": ['runIdMap[id1] = struct{}{}', 'runIdMap[id2] = struct{}{}'],
+    },
+    "harness": [
+        {"name": "C17", "pkg": "./pkg/redis/checkpoint/", "test": "TestVerifC17"},
+        {"name": "C17m", "pkg": "./syncer/", "test": "TestVerifC17Migrate"},
+    ],
     "driver": "drv_C17",
-    "rule": "TODO",
-    "trusted": [],
-    "assumptions": [],
+    "rule": "c17u (UpdateCheckpoint): corpus (D13 witnesses); generated bookkeeping states on the target double: nothing stored / rename / "
+            "failover on the same key / failover + rename / up to date / both ids mapped (also to different keys) / both ids' fields side by "
+            "side / wild (unparsable values, '?' run ids, shuffled or truncated field lists, new key already populated); 1-3 of the DBs "
+            "{0,1,2,3,5,9,15} hold the checkpoint with a strict or tied maximum, foreign ids' fields, bisync mode markers, busy DBs; one third "
+            "of the states are what a previous UpdateCheckpoint leaves when cut after a random request (restart under the same or another key). "
+            "c17g (gc): 1-4 hash pairs (live and dead ids, shared or own keys), offsets incl. -1/0/1, mtimes at threshold-1/0/+1 and far on both "
+            "sides (synctest clock, thresholds 1 s / 1 h / 12 h), missing offset fields, run id fields naming another id, unparsable mtimes; "
+            "real GetAllCheckpointHash + DelStaleCheckpoint + DelCheckpointHash driven as cmd/syncer.go's gcStaleCp does. "
+            "c17m (recovery-format switch, package syncer): corpus (D22 witnesses); new / old id mapped, mode marker stored / missing (inferred) / "
+            "invalid, desired mode sync / pipeline / parallel, root checkpoint older or newer than the recovery state, second DB holding an older "
+            "root, frontier + journal (gaps, trimmed records) or latest record: real resolveBisyncCheckpointNameWithClient. "
+            "Every write request of an operation is a crash point: vfdoubles.Replay of the request prefix, then the REAL GetCheckpointHash + "
+            "GetCheckpoint. Requests (DB, key, fields, values) and the position after every prefix vs Lean (updateReqs / gcReqs / migrateReqs). "
+            "Monitors on the real code: position after any prefix not smaller and in the same DB (on states meeting the stated preconditions, "
+            "counted per reason in input_distribution pre_*); gc never deletes in the DB holding the unique largest offset of a live id. "
+            "distinct_nontrivial = distinct (operation, precondition class, #requests, #hashes, DB of the position)",
+    "trusted": ["target double harness/overlay/pkg/vfdoubles/target.go (per-DB keyspace, HSET keeps field order / HDEL removes the key when empty, INFO keyspace lists non-empty DBs, SELECT per connection)",
+                "Go map iteration over INFO keyspace = any order (parameter of the model; the order the real code used is read from the request log)"],
+    "assumptions": [
+        "replication ids are 40 hex characters (equal length, no '_'): fetchCheckpoint's HasPrefix/Contains field match is modelled as equality of the parsed (run id, suffix) - the harness generates ids of that shape",
+        "preconditions of the safety theorems (checked by the monitor before it judges a case): under the key the hash resolves to, one DB holds the STRICTLY largest offset X >= 0 of the two ids (C02 after the D5 repair: the position written after a SELECT is larger than the one left in the previous DB; with EQUAL offsets in two DBs gc can move the position to the other DB - example in Props/C17.lean), every numeric field of the ids parses, `_runid` fields store their own id, a new key name holds no field of the ids, an orphaned new-id record left by an interrupted re-key is a copy of the old id's record beside it; gc: both ids are reported by a source and one of them alone reads X in that DB",
+        "recovery-format switch: the namespace root checkpoint lives in DB 0 (setCheckpoint / seedBisyncNamespace write it there)",
+        "single maintenance process at a time (no concurrent UpdateCheckpoint / gc on the same target)",
+    ],
+    "partial": [],
 }
 
 MANIFEST = {
-    "text": "TODO",
-    "note": "TODO",
-    "technique": "Lean 4 proof + differential correspondence over crash prefixes",
+    "text": "Lean theorems for EVERY initial bookkeeping state meeting the stated preconditions, EVERY database iteration order of every loop and "
+            "EVERY prefix of the write requests issued: UpdateCheckpoint (rename / re-key), the bidirectional recovery-format switch and stale-checkpoint "
+            "gc leave a target on which GetCheckpointHash + GetCheckpoint read the same (switch: a not smaller) offset in the same database; "
+            "DelStaleCheckpoint with exceptNewest never deletes in the database holding the id's largest offset, for every clock position. "
+            "Tied to the code by differential correspondence of the real functions against the target double with every request prefix replayed and "
+            "the real start-point read, plus independent monitors; literal field/key names regenerated from the source. "
+            "Two defects found and fixed (D13: re-keyed position written into an arbitrary database; D22: format switch dropped a newer root checkpoint).",
+    "note": "trusted: Lean kernel (propext, Classical.choice, Quot.sound only), target double, extractor, harness; cmd/syncer.go gcStaleCp closure compared textually with the transliteration",
+    "technique": "Lean 4 proof (position predicate preserved request by request, fold invariants over arbitrary DB orders) + differential correspondence over every request prefix (crash points)",
 }
